@@ -237,7 +237,7 @@ pub fn sample(ch: &mut Choices, re: &crate::genr::lexspec::Re, out: &mut String)
                 out.push(*ch.choose(&['a', 'b', 'c', '0', '1', 'é', 'z']));
             } else {
                 match ch.choose(items) {
-                    ClassItem::Ch(c) => out.push(*c),
+                    ClassItem::Ch(c) | ClassItem::Esc(c) => out.push(*c),
                     ClassItem::Range(a, _) => out.push(*a),
                 }
             }
